@@ -231,6 +231,10 @@ CORNERS = [
     'set "a" begin return end', 'set "a" begin break end', 'repeat 2 set "a" begin break end',
     'duration 5 time 2 hue 3 saturation 4 brightness 5 kelvin 6 red 1 green 2 blue 3',
     'H 5 S 6 B 7 K 8', 'hue H', 'define f with H begin end',
+    'hue {1 + 2 * }', 'hue {1 + 2 * 3 ^ }', 'hue {1 + 2 ^ (3}', 'repeat with i from 1 to i hue i',
+    'repeat with i from i to 5 hue i', 'assign i 1 repeat with i from i to i hue i',
+    'repeat 3 with i cycle i hue i', 'repeat with i in i hue 5', 'repeat with i from 1 to 5 repeat with j from i to 5 hue j',
+    'define f with a begin repeat with a from a to 5 hue a end',
 ]
 
 
